@@ -61,6 +61,8 @@ pub struct Script {
     pub log: Vec<Vec<u8>>,
     /// write ordinals that fail
     pub fail_writes: Vec<usize>,
+    /// when the wire is exhausted: stay open (reads pend for ever) instead of reporting end of stream
+    pub hold_open: bool,
     pub writes: usize,
 }
 
@@ -105,6 +107,9 @@ impl Future for ReadFut<'_> {
             return Poll::Pending;
         }
         let remaining = s.wire.len() - s.consumed;
+        if remaining == 0 && s.hold_open {
+            return Poll::Pending;
+        }
         let mut n = remaining.min(this.buf.len());
         if !s.cuts.is_empty() && n > 0 {
             let mut tries = 0;
